@@ -98,6 +98,15 @@ def step (d : Option DSt) (t : List String) : Option DSt × List String :=
     match parseTask? tk with
     | some tk => doOp d (.cancel tk)
     | none => (some d, ["bad-op"])
+  | some d, ["cancel_raw", tk] =>
+    -- `aws_task_scheduler_cancel_task` without the client wrapper's guard (outside the API contract the theorems
+    -- assume): the C code itself — unlink / remove by handle if applicable, then `aws_task_run(task, CANCELED)`
+    match parseTask? tk with
+    | some tk =>
+      let s' := if tk < d.s.ntasks then runTask fuel (scriptOf d.scripts) (unlink d.s tk) tk .canceled .cancel else skip d.s
+      let s' := compact s'
+      (some { d with s := s' }, report d.s s')
+    | none => (some d, ["bad-op"])
   | some d, ["run_all", time] =>
     match parseTime? time with
     | some time => doOp d (.runAll time)
